@@ -200,6 +200,10 @@ def run(ctx):
             ctx.inst('T', '%s clone' % b.name.split('asefile::')[-1], okc, 'clone of %s in the loader: %s' % (tys[0], 'a handle or a plain small value' if okc else
                      'a value that may own heap memory is duplicated - memory no input bytes stand for'), c.span, key=ctx.key(b.name, 'T', 'clone', tys[0]))
     ctx.floor('clone calls in the LOAD cone', ncl, 3)
+    # the "progress on the input" argument for the growth loops rests on reads that FAIL at the end of the input: a primitive that returns
+    # a default there (seed C12-t, "like Aseprite's own leniency") lets a `first..=last` loop build a million entries from nothing
+    import C01 as _c01p
+    _c01p.reader_primitives(ctx, 'G')
     # length checks that make the transient buffers "justified"
     iorules.take_bytes_length_check(ctx, 'T')
     # ---------- T (cont.): collect() into a plain collection reserves the iterator's lower size bound up front.  For a range over a
